@@ -170,6 +170,104 @@ fn gen_hay(rng: &mut Rng) -> Vec<char> {
     (0..n).map(|_| if ascii { *rng.pick(&HPOOL[..15]) } else { *rng.pick(HPOOL) }).collect()
 }
 
+/// pattern text of `natoms` atoms built from pieces of the haystack, with markers
+fn gen_pattern_text(rng: &mut Rng, hay: &[char], natoms: u64) -> String {
+    let mut text = String::new();
+    for k in 0..natoms {
+        if k > 0 {
+            text.push(' ');
+        }
+        if rng.chance(1, 4) {
+            text.push('!');
+        }
+        match rng.below(5) {
+            0 => text.push('^'),
+            1 => text.push('\''),
+            _ => {}
+        }
+        let wl = 1 + rng.below(3) as usize;
+        if !hay.is_empty() && rng.chance(3, 4) {
+            let a = rng.below(hay.len() as u64) as usize;
+            let mut i = a;
+            for _ in 0..wl {
+                if i < hay.len() && !hay[i].is_whitespace() && hay[i] != '\\' {
+                    text.push(hay[i].to_lowercase().next().unwrap());
+                }
+                i += 1 + rng.below(2) as usize;
+            }
+        } else {
+            for _ in 0..wl {
+                text.push(*rng.pick(&HPOOL[..8]));
+            }
+        }
+        if rng.chance(1, 5) {
+            text.push('$');
+        }
+    }
+    text
+}
+
+/// `N`: `MultiPattern::score` (the worker's scoring function) over 1-3 columns, some of them with an empty pattern, against
+/// each column's own `Pattern::score`
+fn n_line(out: &mut impl Write, rng: &mut Rng, matcher: &mut Matcher) {
+    use nucleo::pattern::MultiPattern;
+    use nucleo_matcher::Utf32String;
+    let cfg_id = (rng.below(3) as u32) << 3 | rng.below(8) as u32;
+    let mut cfg = config_of(cfg_id);
+    cfg.ignore_case = matcher.config.ignore_case;
+    cfg.normalize = matcher.config.normalize;
+    matcher.config = cfg;
+    let pre_ic = matcher.config.ignore_case;
+    let pre_nz = matcher.config.normalize;
+    let k = 1 + rng.below(3) as usize;
+    let mut mp = MultiPattern::new(k);
+    let mut hays: Vec<Utf32String> = Vec::new();
+    let mut fields = String::new();
+    let mut set = std::collections::BTreeSet::new();
+    // which columns have a pattern: every subset, empty columns in front of non-empty ones included
+    let mask = rng.below(1 << k);
+    for c in 0..k {
+        let hay = gen_hay(rng);
+        let na = 1 + rng.below(2);
+        let text = if mask >> c & 1 == 1 { gen_pattern_text(rng, &hay, na) } else { String::new() };
+        // a column text that differs from the others in what it matches: now and then the reverse of the previous column
+        let hs: String = if c > 0 && rng.chance(1, 4) { hays[c - 1].to_string().chars().rev().collect() } else { hay.iter().collect() };
+        mp.reparse(c, &text, case_of(rng.below(3) as u32), norm_of(rng.below(2) as u32), false);
+        hays.push(Utf32String::from(hs.as_str()));
+    }
+    let multi = mp.score(&hays, matcher);
+    for c in 0..k {
+        let h = hays[c].slice(..);
+        let cps: Vec<char> = h.chars().collect();
+        for &ch in &cps {
+            if !ch.is_ascii() {
+                set.insert(ch);
+            }
+        }
+        let col = mp.column_pattern(c).score(h, matcher);
+        fields.push_str(&format!(
+            " hr{c}={} hay{c}={} atoms{c}={} col{c}={}",
+            if matches!(h, Utf32Str::Ascii(_)) { "A" } else { "U" },
+            hex_cps(&cps),
+            atoms_str(&mp.column_pattern(c).atoms),
+            res_str(col, &[])
+        ));
+    }
+    let ext: Vec<String> = set.into_iter().map(|ch| format!("{:x}:{}", ch as u32, ext_bits(ch))).collect();
+    writeln!(
+        out,
+        "N cfg={} pre={}{} k={} ext={}{} multi={}",
+        cfg_id,
+        pre_ic as u8,
+        pre_nz as u8,
+        k,
+        if ext.is_empty() { "-".to_string() } else { ext.join(",") },
+        fields,
+        res_str(multi, &[])
+    )
+    .unwrap();
+}
+
 fn s_line(out: &mut impl Write, rng: &mut Rng, matcher: &mut Matcher) {
     let cfg_id = (rng.below(3) as u32) << 3 | rng.below(8) as u32;
     // the matcher is shared across cases; its ignore_case/normalize are whatever the last atom left
@@ -356,8 +454,11 @@ fn main() {
             let shard: u64 = args.get(3).map(|s| s.parse().unwrap()).unwrap_or(0);
             rng = Rng::new(seed.wrapping_mul(104729).wrapping_add(shard) ^ 0x5343);
             let mut matcher = Matcher::default();
-            for _ in 0..count {
+            for i in 0..count {
                 s_line(&mut out, &mut rng, &mut matcher);
+                if i % 3 == 0 {
+                    n_line(&mut out, &mut rng, &mut matcher);
+                }
             }
         }
         "corpus" => {
